@@ -410,7 +410,42 @@ class WorldBox:
         self.extra = extra
 
 
+def _local_vertex_classes():
+    """
+    Vertex classes that cannot be found by name (they are defined inside a
+    function, as classes of a script run as __main__ effectively are for
+    another program): dill writes such a class itself into the pickle.
+    """
+    import abc
+
+    class LocalVertex(Vertex):
+        """A by-value class with a plain method."""
+
+        def describe(self):
+            return ("local", getattr(self, "sim_tag", None))
+
+    class LocalSuperVertex(Vertex):
+        """A by-value class whose methods use zero-argument super() (the class refers to itself through a closure cell)."""
+
+        def __init__(self, *, uid=None, attributes=None, links=None, universes=None):
+            super().__init__(uid=uid, attributes=attributes, links=links, universes=universes)
+
+        def describe(self):
+            return ("local-super", super().uid == self.uid)
+
+    class LocalAbstractVertex(Vertex, metaclass=abc.ABCMeta):
+        """A by-value class with a metaclass other than type."""
+
+        def describe(self):
+            return ("local-abc", getattr(self, "sim_tag", None))
+
+    return {c.__name__: c for c in (LocalVertex, LocalSuperVertex, LocalAbstractVertex)}
+
+
+LOCAL_VERTEX_CLASSES = _local_vertex_classes()
+
 VERTEX_CLASSES = {
+    **LOCAL_VERTEX_CLASSES,
     "Vertex": Vertex,
     "SubVertex": SubVertex,
     "FalsyVertex": FalsyVertex,
